@@ -316,8 +316,14 @@ def symbolic_attractor_test(
     # completed and no unprocessed variables remaining.
     all_done = False
 
+    # Set once no further variable can be saturated while a forward step
+    # was declined by the size heuristic; from then on, forward steps are
+    # always accepted (otherwise the main loop could repeat without change).
+    growth_forced = False
+
     while not all_done:
         all_done = True
+        growth_declined = False
 
         # Saturate reach_set with currently selected variables, but only if
         # it's symbolic size is smaller than that of the avoid set (reach set
@@ -333,7 +339,6 @@ def symbolic_attractor_test(
             for var in saturated_vars:
                 successors = graph.var_post_out(var, reach_set)
                 if not successors.is_empty():
-                    all_done = False  # The main loop should continue.
                     updated = reach_set.union(successors)
                     no_avoid = avoid is None
                     avoid_is_larger = (
@@ -342,7 +347,13 @@ def symbolic_attractor_test(
                     all_variables_done = (
                         len(conflict_vars) == 0 and len(other_vars) == 0
                     )
-                    if no_avoid or avoid_is_larger or all_variables_done:
+                    if (
+                        no_avoid
+                        or avoid_is_larger
+                        or all_variables_done
+                        or growth_forced
+                    ):
+                        all_done = False  # The main loop should continue.
                         reach_set = updated
                         saturation_done = False
                         if reach_set.symbolic_size() > 100_000 and sd.config["debug"]:
@@ -350,6 +361,7 @@ def symbolic_attractor_test(
                                 f"[{node_id}] > Saturation({len(saturated_vars)}) Incremented forward reach set: {reach_set}"
                             )
                         break
+                    growth_declined = True
 
         if avoid is not None:
             # If `avoid` is not `None`, we also want to expand it backwards.
@@ -444,6 +456,12 @@ def symbolic_attractor_test(
                 )
 
             break
+        else:
+            # No further variable can be saturated. If a forward step was declined
+            # above, it has to be taken now, or the set would never be closed.
+            if growth_declined and not growth_forced:
+                growth_forced = True
+                all_done = False
 
     if sd.config["debug"]:
         print(f"[{node_id}] > Reachability completed with {reach_set}.")
